@@ -1230,7 +1230,18 @@ class Fetcher:
                     continue
                 res_or_error = self._records[tp]
                 if type(res_or_error) is FetchResult:
-                    records = res_or_error.getall(max_records)
+                    try:
+                        records = res_or_error.getall(max_records)
+                    except Exception:
+                        # Unpacking this partition failed (corrupt batch,
+                        # deserializer error). The position of this partition
+                        # did not move, but the partitions drained before it
+                        # have already advanced theirs: return their records
+                        # instead of dropping them with the exception. The
+                        # error will be raised again by a following call.
+                        if drained:
+                            return drained
+                        raise
                     if not res_or_error.has_more():
                         # We processed all messages - request new ones
                         del self._records[tp]
